@@ -49,6 +49,7 @@ from vgi_rpc.rpc._common import (
     _current_request_metadata,
     _current_request_param_schema,
     _current_trace_headers,
+    _logger,
     _record_input,
     _record_output,
 )
@@ -660,7 +661,13 @@ def _dispatch_log_or_error(
     msg = Message(level, message_str)
     msg.extra = dict(extra) if extra else None
     if on_log is not None:
-        on_log(msg)
+        try:
+            on_log(msg)
+        except Exception:
+            # Letting a callback failure escape here would abandon the response
+            # mid-stream: the unread remainder stays on the pipe/socket and the
+            # *next* call on the connection reads it as its own response.
+            _logger.warning("on_log callback raised; continuing to read the response", exc_info=True)
     return True
 
 
